@@ -17,6 +17,11 @@ func FormatPacketDsl(dsl string) (string, error) {
 	listener := NewSyntaxErrorListener()
 	parser.RemoveErrorListeners()
 	parser.AddErrorListener(listener)
+	// characters no token matches are syntax errors too: the lexer would silently skip them
+	if lexer, ok := stream.GetTokenSource().(*gen.PacketDslLexer); ok {
+		lexer.RemoveErrorListeners()
+		lexer.AddErrorListener(listener)
+	}
 	// parese the file
 	tree := parser.Packet()
 	if listener.HasErrors() {
